@@ -79,7 +79,10 @@ Section Top.
   Qed.
 
   (* an edge exists only for a requirement that getDependencies kept: its marker is absent or
-     evaluated true for some set of extras; a requirement whose marker is false yields nothing *)
+     evaluated true for a set E of extras, and every extra in E is requested by a requirement that
+     some version known to the client places on the source's package (E is contained in the extras
+     of the criterion of that package, which are the union over all its information entries,
+     including those of versions that are no longer in the graph) *)
   Theorem false_marker_nothing fuel g f t rqv ty :
     RESOLVE fuel = Ok g -> In (f, t, rqv, ty) (g_edges g) ->
     exists fv tv par d E l,
@@ -87,16 +90,24 @@ Section Top.
       (vk_name par = vk_name fv \/ (par = vkey_zero /\ fv = root)) /\
       c_requirements par = Ok l /\ In d l /\
       rq_ver d = rqv /\ rq_type d = ty /\ rq_name d = vk_name tv /\
-      KEEP E d = Ok true.
+      KEEP E d = Ok true /\
+      (forall e, In e E -> exists par' d' l', c_requirements par' = Ok l' /\ In d' l' /\
+                            rq_name d' = vk_name par /\ In e (extras_of_type (rq_type d'))).
   Proof.
     intros H He. start H st HI U B.
     destruct (graph_edge_origin _ _ _ _ _ _ _ _ _ Hwf _ HI U _ B _ _ _ _ He)
       as (fv & tv & d & par & crit & Hf & Ht & Gc & Hd & E1 & E2 & Hp & Hc).
-    destruct (inv_crit _ _ _ _ _ _ _ _ _ _ HI _ _ Gc) as [_ _ A3 A4 _].
-    destruct (A4 _ _ Hd) as (E & l & Rl & Dl & Kl).
+    destruct (inv_crit _ _ _ _ _ _ _ _ _ _ HI _ _ Gc) as [_ _ A3 A4 _ _].
+    destruct (A4 _ _ Hd) as (E0 & l & Rl & Dl & _).
+    destruct (inv_origin _ _ _ _ _ _ _ _ _ _ HI _ _ _ _ Gc Hd) as (E & Kl & HE).
     exists fv, tv, par, d, E, l. repeat split; auto.
     - destruct Hp as [Hp|Hp]; auto.
     - eapply A3; eauto.
+    - intros e Hin. destruct HE as [E0'|(cp & Gp & Ip)]; [subst E; contradiction|].
+      destruct (inv_crit _ _ _ _ _ _ _ _ _ _ HI _ _ Gp) as [_ _ B3 B4 _ B6].
+      destruct (B6 _ (Ip _ Hin)) as (d' & par' & Hd' & He').
+      destruct (B4 _ _ Hd') as (E' & l' & Rl' & Dl' & _).
+      exists par', d', l'. repeat split; auto. eapply B3; eauto.
   Qed.
 
   (* the target of every edge satisfies the requirement on the edge under the provider's rule *)
@@ -109,7 +120,7 @@ Section Top.
     intros H He. start H st HI U B.
     destruct (graph_edge_origin _ _ _ _ _ _ _ _ _ Hwf _ HI U _ B _ _ _ _ He)
       as (fv & tv & d & par & crit & Hf & Ht & Gc & Hd & E1 & E2 & Hp & Hc).
-    destruct (inv_crit _ _ _ _ _ _ _ _ _ _ HI _ _ Gc) as [A1 _ A3 _ _].
+    destruct (inv_crit _ _ _ _ _ _ _ _ _ _ HI _ _ Gc) as [A1 _ A3 _ _ _].
     assert (Hr : In d (reqs_of crit)) by (unfold reqs_of; apply in_map_iff; exists (d, par); auto).
     destruct (A1 _ Hc _ Hr) as (l & Gl & Hl).
     exists tv, d, l. repeat split; auto.
